@@ -66,6 +66,9 @@ CHECKS = {
  "C20": ("exploration", "M-panic + self-consistency oracle over names generated from the documented name grammar",
          "3e5 (quick) / 2e7 (thorough) names (words, non-ASCII words, dotted acronyms, roman numerals, numbers in every position, glued letter-digit words, hyphenation, year ranges, bracketed year/edition, ' - Mod' suffix) and lists of 1-4 games: no panic; the set of expected ids is independent of the wrong proposal, every reported expected id is accepted, candidates are accepted iff reported; the shipped GAMES table passes.",
          "Names with text directly after 'number-' (documented as unsupported) and leading numbers above 15 digits are observe-only.", "4 C20"),
+ "C19": ("exploration", "subprocess monitor of the real gamedig_cli binary against loopback model servers: exit status, stdout/stderr, strict format checkers (JSON, XML well-formedness, BSON), faithfulness against the library's own answer",
+         "gamedig_cli (rebuilt from the working tree) is run against real loopback servers speaking the reference encodings for 20 games of every protocol family x 6 formats x 2 modes with hostile server strings: exit 0, exactly one document, well-formed per a strict checker for the format, and equal to serde_json of as_json()/as_original() of the library's answer to an identically seeded server; 12 kinds of invalid invocation must exit non-zero with a message and no panic.",
+         "XML faithfulness compared on the multiset of leaf texts; characters XML cannot carry (NUL, U+FFFE/FFFF) expected as U+FFFD; cases the library itself rejects are observe-only.", "4 C19"),
 }
 NOT_YET = {}
 for i in range(1, 21):
